@@ -4,6 +4,7 @@
     (an entry is never split); the theorems below are about which file it goes to and what else is
     in that file. *)
 Require Import Model.Bytes Model.FieldDef Model.Fields Model.Validate Model.Record Model.Writer Proofs.WriterProofs.
+Require Import Model.Serial Proofs.SerialProofs.
 Local Open Scope Z_scope.
 
 (** With a warcinfo generator every file begins with exactly the warcinfo record built for its own
@@ -64,3 +65,36 @@ Theorem C13_callback_arguments :
       w_effects (w_close st) = w_effects st ++ [EClose n; ERename n; ECallback n (fsize conf zsize f) (w_info st)].
 Proof. intros conf name_of zsize. exact (w_close_callback conf name_of zsize). Qed.
 Print Assumptions C13_callback_arguments.
+
+(** Callers sharing one generator (several goroutines, several writers): when the serial is taken
+    by one atomic add - which Properties/SerialTable.v checks of the current source - the serials
+    handed out under EVERY schedule of any number of calls are c+1, c+2, ... without repetition,
+    so the names are pairwise different for every generator whose pattern is injective in the
+    serial.  Stated for an unbounded counter; the int32 counter of the code is the next theorem. *)
+Theorem C13_names_distinct_under_every_schedule :
+  forall (N : Type) (name_of : Z -> N) c sched,
+    (forall a b, name_of a = name_of b -> a = b) ->
+    NoDup (map (fun r => name_of (snd r)) (run_add c sched)) /\
+    map snd (run_add c sched) = map (fun i => (c + 1 + Z.of_nat i)%Z) (seq 0 (length sched)) /\
+    map fst (run_add c sched) = sched.
+Proof.
+  intros N name_of c sched Hinj. split; [exact (names_distinct_under_every_schedule name_of c sched Hinj)|].
+  split; [exact (run_add_values c sched)|exact (run_add_threads c sched)].
+Qed.
+Print Assumptions C13_names_distinct_under_every_schedule.
+
+(** The discipline is needed: with an atomic load followed by an atomic store of the successor
+    (no data race) two callers can be handed the same serial. *)
+Theorem C13_load_then_store_refuted :
+  exists sched, ~ NoDup (map snd (run_ls 0%Z (fun _ => None) sched)).
+Proof. exact load_then_store_hands_out_a_serial_twice. Qed.
+Print Assumptions C13_load_then_store_refuted.
+
+(** The counter as it is in the code (an int32 that wraps): from any start value, the serials handed
+    out under every schedule of at most 2^32 calls are pairwise different.  (Beyond 2^32 names
+    from one generator the serial, and with it the name, repeats: a limit of the code, outside
+    what the property is read to demand.) *)
+Theorem C13_int32_serials_distinct_within_2_32_calls :
+  forall c sched, (Z.of_nat (length sched) <= 4294967296)%Z -> NoDup (map snd (run_add32 c sched)).
+Proof. exact int32_serials_distinct_within_2_32_calls. Qed.
+Print Assumptions C13_int32_serials_distinct_within_2_32_calls.
